@@ -1,7 +1,7 @@
 (* C06 -- property theorems only: each is closed by [exact] of a lemma proved elsewhere. *)
 From Coq Require Import List NArith ZArith.
-From Muscle Require Import Refl.Base Refl.Tree Refl.Matcher Refl.Session Refl.Server Refl.IsoModel Refl.IsoBase
-     Refl.IsoFrame Refl.IsoProofs Refl.IsoExamples.
+From Muscle Require Import Refl.Base Refl.BaseProofs Refl.Tree Refl.Matcher Refl.Session Refl.Server Refl.ServerProofs
+     Refl.IsoModel Refl.IsoBase Refl.IsoFrame Refl.IsoProofs Refl.IsoTold Refl.IsoDetach Refl.IsoRun Refl.IsoClean Refl.IsoExamples.
 Import ListNotations.
 
 (* A client cannot give itself privileges. *)
@@ -45,3 +45,52 @@ Example C06_frame_premises_satisfiable :
   exists ss, get_session (xs_sv xs) 10%N = Some ss /\ unprivileged xs 10%N /\ xs_ducks xs = [] /\
              length (foreign_view 10%N (session_dir ss) (sv_tree (xs_sv xs))) = 6 /\ has_priv xs 12%N 0%N = true.
 Proof. vm_compute. eexists. repeat split; reflexivity. Qed.
+
+(* DETACH CLEAN.  For every history evs (arrivals under fresh (host, id) pairs, departures, commands of any kind from any number
+   of sessions; fewer than 2^31-1 subscription strings added in total) and every session s attached at its end: when s's
+   connection ends there -- with C03's "only complete Messages are dispatched" that covers a cut after any byte prefix --
+   the resulting state satisfies [left_clean] (Refl/IsoClean.v): subtree gone, host node there iff another session uses the host,
+   no subscriber table mentions s, s is no session any more and holds no privilege entry, all others keep identity /
+   subscriptions / limits / privileges, every other node is kept and untouched up to s's mark, and every session owed a
+   notice for a node of the subtree has been sent its removal.
+   Premises: the laws of the external matching code (MatchLaws, C15) and the F12 repair (fx_guard, in /repo since 63c5c82). *)
+Theorem C06_detach_clean : forall (M : MatchOps) (L : MatchLaws M) (fx : fixes), fx_guard fx = true ->
+  forall evs s ss,
+  small (xrun_budget evs) -> xwf_run fx empty_xserver evs ->
+  let xs := xrun fx evs empty_xserver in
+  get_session (xs_sv xs) s = Some ss ->
+  left_clean xs s ss (xstep fx xs (XDetach s)).
+Proof. exact @detach_clean. Qed.
+Print Assumptions C06_detach_clean.
+
+(* the same in any state that satisfies the server invariant (C04's [inv]), reachable or not *)
+Theorem C06_xdetach_clean : forall (M : MatchOps) (L : MatchLaws M) (fx : fixes), fx_guard fx = true ->
+  forall B xs s ss, small B -> inv B (xs_sv xs) -> xs_ducks xs = [] ->
+  get_session (xs_sv xs) s = Some ss -> left_clean xs s ss (xdetach fx xs s).
+Proof. exact @xdetach_clean. Qed.
+Print Assumptions C06_xdetach_clean.
+
+(* the server invariant holds after every history of the dispatcher model *)
+Theorem C06_reachable_inv : forall (M : MatchOps) (L : MatchLaws M) (fx : fixes), fx_guard fx = true ->
+  forall evs, small (xrun_budget evs) -> xwf_run fx empty_xserver evs ->
+  inv (xrun_budget evs) (xs_sv (xrun fx evs empty_xserver)).
+Proof. exact @reachable_inv. Qed.
+Print Assumptions C06_reachable_inv.
+
+(* non-vacuity: the example history is well-formed and small; session 11 is attached at its end and owns a node that
+   session 10 is owed a removal notice for *)
+Example C06_detach_premises_satisfiable :
+  small (xrun_budget ex_history) /\ xwf_run all_fixed empty_xserver ex_history /\
+  exists ss n st, get_session (xs_sv (ex_state all_fixed)) 11%N = Some ss /\
+                  In n (sv_tree (xs_sv (ex_state all_fixed))) /\ is_prefix (session_dir ss) (n_path n) = true /\
+                  get_session (xs_sv (ex_state all_fixed)) 10%N = Some st /\ owed st n.
+Proof.
+  split; [vm_compute; reflexivity|]. split.
+  - cbn. repeat split; intros ss Hin; cbn in Hin;
+      repeat (destruct Hin as [Hin|Hin]; [subst ss; cbn; discriminate|]); destruct Hin.
+  - vm_compute. do 3 eexists. repeat split; try reflexivity.
+    + right. right. right. right. left. reflexivity.
+    + reflexivity.
+    + left. reflexivity.
+    + intros H. discriminate.
+Qed.
